@@ -142,7 +142,7 @@ def real_check(quiet, files):
         p = Path(d) / ("f%03d.py" % i)
         p.write_text("")
         paths.append(p)
-        by_path[str(p)] = [Measurement("u%d_%d" % (i, j), Location(j + 1, 1), Location(j + 1, 9), v) for j, v in enumerate(ls)]
+        by_path[str(p)] = [Measurement("u%d" % j, Location(j + 1, 1), Location(j + 1, 9), v) for j, v in enumerate(ls)]
     current = {}
     saved = (checkmod.scan_file, checkmod.lex, getattr(checkmod, "_read_file", None), checkmod.check_file)
     orig_check_file = checkmod.check_file
@@ -174,7 +174,7 @@ def real_check(quiet, files):
     printed = 1 if out.strip() else 0
     listed = [[] for _ in files]
     for line in out.splitlines():
-        m = re.match(r".*f(\d\d\d)\.py:\d+:\d+: (\d+) \S+ u\d+_\d+\s*$", line)
+        m = re.match(r".*f(\d\d\d)\.py:\d+:\d+: (\d+) \S+ u\d+\s*$", line)
         if m:
             listed[int(m.group(1))].append(int(m.group(2)))
     says = 1 if "functions need refactoring" in out.replace("\n", " ") else 0
@@ -219,6 +219,8 @@ def gen_files(rnd):
             else:
                 ls.append(rnd.randint(200, 100000))
         files.append(ls)
+    if len(files) >= 2 and rnd.random() < 0.3:
+        files[rnd.randrange(1, len(files))] = list(files[0])      # an identical copy of the first file
     return files
 
 
